@@ -953,9 +953,12 @@ def lazily_stage_wrapper(plan):
     COMMANDS = set(["read", "set", "trigger", "kickoff"])  # noqa: C405
     # Cache devices in the order they are staged; then unstage in reverse.
     devices_staged = []
+    # Roots that have been staged: a component is covered by its root even
+    # when the root's stage() result does not list that component.
+    roots_staged = []
 
     def inner(msg):
-        if msg.command in COMMANDS and msg.obj not in devices_staged:
+        if msg.command in COMMANDS and root_ancestor(msg.obj) not in roots_staged:
             root = root_ancestor(msg.obj)
 
             def new_gen():
@@ -967,6 +970,7 @@ def lazily_stage_wrapper(plan):
                     # This is a hack to make that possible.
                     ret = [root]
                 devices_staged.extend(ret)
+                roots_staged.append(root)
                 # and then proceed with our regularly scheduled programming
                 yield msg
 
